@@ -223,4 +223,9 @@ VF_E void x_set_union(cit const& f1, cit const& l1, cit const& f2, cit const& l2
 VF_E void x_set_intersection(cit const& f1, cit const& l1, cit const& f2, cit const& l2, it const& d, it* o) { *o = etl::set_intersection(f1, l1, f2, l2, d, klt{}); }
 VF_E void x_set_difference(cit const& f1, cit const& l1, cit const& f2, cit const& l2, it const& d, it* o) { *o = etl::set_difference(f1, l1, f2, l2, d, klt{}); }
 VF_E void x_set_symmetric_difference(cit const& f1, cit const& l1, cit const& f2, cit const& l2, it const& d, it* o) { *o = etl::set_symmetric_difference(f1, l1, f2, l2, d, klt{}); }
+// for_each_n / iter_swap (no driver instantiated them before)
+VF_E int* for_each_n_mut(int* f, long n) { return etl::for_each_n(f, n, mut1{}); }
+VF_E void x_for_each_n(it const& f, long n, it* o) { *o = etl::for_each_n(f, n, mut1{}); }
+VF_E void iter_swap_int(int* a, int* b) { etl::iter_swap(a, b); }
+VF_E int* search_int(int* f, int* l, int* sf, int* sl) { return etl::search(f, l, sf, sl); }
 } // namespace vf
